@@ -177,6 +177,78 @@ pub fn emit_new(out: &mut Vec<String>, code: &[u8], base: u64) {
     dec_all(code, base, out);
 }
 
+/// C01 (and everything else): an instruction is what the bytes at RIP say *now* — code patched by the host between steps,
+/// or by the program itself (a store into its own, writable, code), executes as patched
+pub fn gen_patched_code(tier: &str, seed: u64, out: &mut Vec<String>) {
+    let mut rng = Rng::new(seed ^ 0x9A7C);
+    let n = if tier == "thorough" { 600 } else { 60 };
+    let pool: Vec<Vec<u8>> = vec![
+        vec![0xb8, 1, 0, 0, 0],             // mov eax, 1
+        vec![0xb9, 7, 0, 0, 0],             // mov ecx, 7
+        vec![0xb8, 5, 0, 0, 0],             // mov eax, 5
+        vec![0x01, 0xc3],                   // add ebx, eax
+        vec![0x48, 0xff, 0xc2],             // inc rdx
+        vec![0x31, 0xf6],                   // xor esi, esi
+        vec![0x90],                         // nop
+        vec![0x48, 0x89, 0xd8],             // mov rax, rbx
+        vec![0x48, 0xc7, 0xc0, 0x2a, 0, 0, 0], // mov rax, 42
+    ];
+    for k in 0..n {
+        if k % 2 == 0 {
+            // host-driven: step, overwrite the instruction, put RIP back, step again (several times)
+            let first = rng.pick(&pool).clone();
+            let mut code = first.clone();
+            code.resize(16, 0x90);
+            emit_new(out, &code, CODE);
+            out.push("nonative".into());
+            out.push(setregs_at(&mut rng, CODE));
+            out.push(format!("prot {:x} 7", CODE));
+            out.push("step".into());
+            out.push("regs".into());
+            for _ in 0..1 + rng.below(3) {
+                let next = rng.pick(&pool).clone();
+                let mut code2 = next.clone();
+                code2.resize(16, 0x90);
+                out.push(format!("mwb {:x} {}", CODE, hex(&code2)));
+                dec_all(&code2, CODE, out);
+                out.push(format!("rw 64 RIP {:x}", CODE));
+                out.push("step".into());
+                out.push("regs".into());
+            }
+        } else {
+            // guest-driven: a loop whose first instruction is rewritten by a store inside the loop
+            //   0: mov eax, 1 ; 1: add ebx, eax ; 2: mov byte [rip+d], 5 (patches the immediate of 0) ; 3: dec ecx ; 4: jne 0
+            let build = |d: i32| -> Vec<Ins> {
+                let mut st = vec![0xc6, 0x05];
+                st.extend(d.to_le_bytes());
+                st.push(5);
+                vec![ins(&[0xb8, 1, 0, 0, 0]), ins(&[0x01, 0xc3]), ins(&st), ins(&[0xff, 0xc9]), jcc(5, 0, false)]
+            };
+            let (_, addrs) = assemble(&build(0), CODE);
+            // the store's operand is relative to the end of the store instruction: target = CODE + 1 (the imm32 of `mov eax, 1`)
+            let d = (CODE + 1) as i64 - addrs[3] as i64;
+            let prog = build(d as i32);
+            let (code, _) = assemble(&prog, CODE);
+            emit_new(out, &code, CODE);
+            // after the patch the first instruction decodes differently at the same address
+            let mut patched = code.clone();
+            patched[1] = 5;
+            dec_all(&patched, CODE, out);
+            out.push("nonative".into());
+            out.push(setregs_at(&mut rng, CODE));
+            out.push(format!("rw 64 RCX {:x}", 2 + rng.below(3)));
+            out.push("rw 64 RBX 0".into());
+            out.push(format!("prot {:x} 7", CODE));
+            out.push("maxinstr 40".into());
+            for _ in 0..22 {
+                out.push("step".into());
+            }
+            out.push("regs".into());
+            out.push(format!("mrb {:x} 10", CODE));
+        }
+    }
+}
+
 /// C11: step-by-step and execute runs of the same program under a limit; steps after the end
 pub fn gen_c11(tier: &str, seed: u64, out: &mut Vec<String>) {
     let mut rng = Rng::new(seed ^ 0xC11);
